@@ -283,12 +283,13 @@ class Result:
 
 
 def run_session(scenario, policy, workdir, clients='scripted', faults=None, max_steps=600000,
-                client_factory=None, extra_threads=None, main_wrapper=None, inject=None, attempts=None):
+                client_factory=None, extra_threads=None, main_wrapper=None, inject=None, attempts=None, segment=None):
     """returns Result: status, schedule, exceptions, log text, per-connection byte streams, per-thread ops"""
     import pathlib
     from bridge_env.network_bridge.server import Server
     sched = S.new_run(policy, max_steps=max_steps)
     sched.inject = inject
+    S.NET.segment = random.Random(segment) if segment is not None else None
     addr = ('fake', 2000)
     fd, path = tempfile.mkstemp(suffix='.json', dir=workdir)
     os.close(fd)
